@@ -217,7 +217,7 @@ if __name__ == "__main__":
              "{-1,0,10s,2m,15m,30m,1h,connected,permanent}: AddAddr(s)/SetAddr(s)/record batches of 1-4 with own/foreign /p2p suffixes, one in five naming an address twice (plainly, or once with /p2p/<self>), UpdateAddrs between "
              "classes, ClearAddrs, ConsumePeerRecord with real sealed envelopes (lower/equal/higher seq, empty, wrong signer), clock advances "
              "(exactly TTL, TTL-1, small, 0), GC runs, close/reopen; every history is run on pstoremem and on pstoreds (cache 0 / >0, full-purge / "
-             "lookahead GC), one in five with binding caps; plus reopen inserted after every (3rd) prefix. Every answer is compared with the "
+             "lookahead GC), one in five with binding caps; plus reopen inserted after every (3rd) prefix. Deadline-directed histories: a shadow book steers writes and clock advances relative to the deadlines assigned so far (re-add with a smaller TTL class late enough that now+ttl outlives the old deadline, or too early to; UpdateAddrs(old == new) as a refresh; UpdateAddrs to another class; SetAddrs late in the life; connected and back), and the clock is walked to one second before / exactly on / just after / between the old and new deadlines with reads (Addrs, PeersWithAddrs, GetPeerRecord, GC, close+reopen) there, on pstoremem and pstoreds with cache off and on. Every answer is compared with the "
              "Coq model of that store (conform_case) and judged against the abstract book by the property monitor (monitor_case).",
         describe=describe, key=key, what=what, crosscheck=150,
     ))
